@@ -52,12 +52,22 @@ def run_scenario(chk, sc, cfgseed, dtype, axes, flavour="sched", workers=None):
                 shuffle=lambda lv, f, v: rng.sample(v, len(v)))
     # integer grids: values that the integer type can hold (the conversion of NaN / inf / 1e300 to an integer is undefined)
     flds = lattice.Fields(lat, cfgseed, payload="wild" if cfgseed % 2 and not dtype.startswith("int") else "tame")
+    fi = 1 + cfgseed % 3
+    if cfgseed % 3 == 0 and len(sc["mesh"]) > 1:
+        # QUIET BOXES: on every finer level one box holds nothing but zeros (+0.0 or -0.0) in the chosen field, over coarse
+        # cells that are not zero: the zeros are the data of those cells
+        for l in range(1, len(sc["mesh"])):
+            cb = lat.concrete_boxes(l)
+            pick = cb[(cfgseed // 3) % len(cb)][0]
+            for b, box in cb:
+                if b == pick:
+                    sl = tuple(slice(a, h + 1) for a, h in zip(box["lo"], box["hi"]))
+                    flds.level(l, fi)[sl] = 0.0 if (cfgseed // 9) % 2 == 0 else -0.0
     d = chk.tmp_reuse()
     os.makedirs(d)
     src, out = os.path.join(d, "plt00010"), os.path.join(d, "grid")
     gamma.write_plotfile(src, ap, cfg_, values=flds.values)
     before = alpha.tree_digest(src)
-    fi = 1 + cfgseed % 3
     lim = sc["lim"]
     plan, pos = {}, 0
     for l in range(lim + 1):
@@ -100,6 +110,8 @@ def run_scenario(chk, sc, cfgseed, dtype, axes, flavour="sched", workers=None):
                 exp[tuple(tgt)] = src_lv[tuple(idx)]
     if got.tobytes() != exp.tobytes():
         bad = np.argwhere(~((got == exp) | ((got != got) & (exp != exp))))
+        if not len(bad):
+            bad = np.argwhere(np.signbit(got) != np.signbit(exp))       # the sign of a zero
         k = tuple(int(x) for x in bad[0]) if len(bad) else None
         return "grid cell %r holds %r, the finest selected level covering it stores %r (%d cells differ)" % (
             k, None if k is None else float(got[k]), None if k is None else float(exp[k]), len(bad))
